@@ -254,7 +254,7 @@ func validSeparator(b byte) bool {
 // evaluated object.
 func ResolveRef(subject Evaluable, spec string) (string, bool, error) {
 	var (
-		key             = path.Clean(spec)
+		key             = strings.TrimLeft(path.Clean(spec), "/")
 		obj interface{} = subject
 	)
 
